@@ -43,6 +43,16 @@ func (s *nestedSpace) Build(path []Op) (*World, error) {
 	w := s.newWorld()
 	w.TrackStale = s.detach
 	w.OpMaps = func(c *Cont) bool { return true }
+	if s.spec.Has("crash") || s.spec.Has("twin") || s.spec.Has("faults") {
+		w.KeyStorage = true
+		w.TrackCommits = s.spec.Has("crash")
+		w.TwinBase = func() (*World, error) {
+			x := s.newWorld()
+			x.TrackStale = s.detach
+			x.OpMaps = func(c *Cont) bool { return true }
+			return x, nil
+		}
+	}
 	for _, op := range s.seed {
 		if err := w.Apply(op); err != nil {
 			return nil, fmt.Errorf("seed op %s: %w", op, err)
